@@ -1029,6 +1029,53 @@ def is_private_helper(fi, entry):
         fi.module is entry.module and fi is not entry
 
 
+_PROLOGUE = {}
+
+
+def prologue_helpers(entry):
+    """qualified names of the private helpers next to `entry` that are not
+    checking routines: non-recursive, reaching (through calls by name inside
+    the module) neither a recursive function nor one that instantiates a
+    class of the module.  Typical products of extract-helper refactorings
+    of an entry point's prologue (parsing, casting, fairness set-up); rules
+    that keep the checking core opaque interpret these."""
+    key = entry.qn
+    if key in _PROLOGUE:
+        return _PROLOGUE[key]
+    mod = entry.module
+    calls, builds = {}, {}
+    for name, f in mod.funcs.items():
+        cs, b = set(), False
+        for n in ast.walk(f.node):
+            if isinstance(n, ast.Call) and isinstance(n.func, ast.Name):
+                if n.func.id in mod.funcs:
+                    cs.add(n.func.id)
+                elif n.func.id in mod.classes:
+                    b = True
+        calls[name], builds[name] = cs, b
+    reach = {k: set(v) for k, v in calls.items()}
+    changed = True
+    while changed:
+        changed = False
+        for k in reach:
+            for m in list(reach[k]):
+                new = reach[m] - reach[k]
+                if new:
+                    reach[k] |= new
+                    changed = True
+    rec = set(k for k in reach if k in reach[k])
+    out = set()
+    for k, f in mod.funcs.items():
+        if f is entry or not is_private_helper(f, entry):
+            continue
+        if k in rec or (reach[k] & rec) or builds[k] or \
+                any(builds[m] for m in reach[k]):
+            continue
+        out.add(f.qn)
+    _PROLOGUE[key] = out
+    return out
+
+
 class LoopFrame(object):
     def __init__(self, node, var, iterable, lid):
         self.node = node
